@@ -673,6 +673,11 @@ impl<'a> PG<'a> {
                 let x = self.num(sc);
                 let t = if self.cfg.wild_delay_time && self.g.bool(1, 4) {
                     self.num(sc)
+                } else if self.cfg.wild_delay_time && self.g.bool(1, 4) {
+                    // the edges of the buffer: 0, just below / at / above the declared maximum, fractions
+                    let nn = n as f64;
+                    let v = *self.g.pick(&[nn, nn - 1.0, nn + 1.0, 0.0, nn - 0.5, nn + 0.5, 0.5, nn * 2.0]);
+                    E::Lit(format!("{v:?}"))
                 } else {
                     E::Lit(format!("{}.0", self.g.int(1, (n - 1) as i64)))
                 };
